@@ -15,7 +15,7 @@ def S(harness, cfg, expect=(), tiers=Q, **kw):
 
 ICDF_EXPECT = ["icdf.bin_below_bins", "icdf.point_inside_reported_bin", "icdf.weight_is_product",
                "icdf.bin_is_floor_u_times_bins"]
-REFINE_EXPECT = ["refine.starts_at_zero", "refine.ends_at_one", "refine.non_decreasing",
+REFINE_EXPECT = ["refine.zero_data_leaves_grid_unchanged", "refine.starts_at_zero", "refine.ends_at_one", "refine.non_decreasing",
                  "refine.equal_share_of_importance", "refine.boundaries_finite"]
 
 PLAN = {}
@@ -38,9 +38,119 @@ PLAN["C07"] = dict(
         S("h_vegas_pdf", dict(ob=1, B=2, d=1), REFINE_EXPECT),
         S("h_vegas_pdf", dict(ob=1, B=3, d=1), REFINE_EXPECT),
         S("h_vegas_pdf", dict(ob=1, B=2, d=2), REFINE_EXPECT),
-        S("h_vegas_pdf", dict(ob=1, B=3, d=1, zero=1), ["refine.zero_data_leaves_grid_unchanged"]),
-        S("h_vegas_pdf", dict(ob=1, B=2, d=2, zero=1), ["refine.zero_data_leaves_grid_unchanged"]),
         S("h_vegas_pdf", dict(ob=1, B=4, d=1), REFINE_EXPECT, tiers=T),
         S("h_vegas_pdf", dict(ob=1, B=3, d=2), REFINE_EXPECT, tiers=T),
     ],
 )
+
+# ---------------------------------------------------------------------------------------------
+COMMON_ASSUME = ["exact extended-real arithmetic (finite values are z3 reals: no rounding, overflow, underflow, signed zero)",
+                 "pow/log/sqrt modelled by contract (sign, monotonicity, pow(x,0)=1, pow(0,b>0)=0, s*s=v)",
+                 "canonical random numbers are arbitrary reals in [0,1) (u == 1 additionally where stated)",
+                 "stub integrand / channel map return arbitrary values of the stated kinds; the map fills the densities of the enabled channels only"]
+
+IT_P = dict(alg=0)
+IT_V = dict(alg=1)
+IT_M = dict(alg=2)
+
+
+def it(alg, **kw):
+    c = dict(alg=alg)
+    c.update(kw)
+    return c
+
+
+ITERATION_JOBS_Q = [
+    S("h_iteration", it(0, N=0, d=1, fk=2), ["iteration.calls_is_N"]),
+    S("h_iteration", it(0, N=2, d=2, fk=5), ["iteration.sum_is_sum"]),
+    S("h_iteration", it(0, N=1, d=1, fk=5, dist=5), ["iteration.sum_is_sum"]),
+    S("h_iteration", it(0, N=2, d=1, fk=2, dist=1), ["iteration.sum_is_sum"]),
+    S("h_iteration", it(1, N=0, d=1, B=2, fk=2), ["iteration.calls_is_N"]),
+    S("h_iteration", it(1, N=2, d=1, B=2, fk=5), ["vegas.adjustment_data_is_per_bin"]),
+    S("h_iteration", it(1, N=1, d=2, B=2, fk=5), ["vegas.adjustment_data_is_per_bin"]),
+    S("h_iteration", it(1, N=1, d=1, B=3, fk=5, dist=5), ["vegas.adjustment_data_is_per_bin"]),
+    S("h_iteration", it(2, N=0, d=1, C=2, fk=2), ["iteration.calls_is_N"]),
+    S("h_iteration", it(2, N=1, d=1, C=2, fk=5, jk=5, ask=1, pz=1), ["multi_channel.adjustment_data_is_per_channel"]),
+    S("h_iteration", it(2, N=2, d=1, C=2, fk=2, jk=1), ["multi_channel.adjustment_data_is_per_channel"]),
+    S("h_iteration", it(2, N=1, d=2, C=3, fk=2, jk=1, ask=1), ["multi_channel.call_protocol_order"]),
+    S("h_iteration", it(2, N=1, d=1, C=2, fk=5, jk=1, dist=5), ["multi_channel.adjustment_data_is_per_channel"]),
+]
+ITERATION_JOBS_T = [
+    S("h_iteration", it(0, N=3, d=2, fk=5), ["iteration.sum_is_sum"], tiers=T),
+    S("h_iteration", it(0, N=2, d=1, fk=5, dist=5), ["iteration.sum_is_sum"], tiers=T),
+    S("h_iteration", it(1, N=3, d=1, B=2, fk=5), ["vegas.adjustment_data_is_per_bin"], tiers=T),
+    S("h_iteration", it(1, N=2, d=2, B=2, fk=5), ["vegas.adjustment_data_is_per_bin"], tiers=T),
+    S("h_iteration", it(1, N=2, d=1, B=4, fk=2), ["vegas.adjustment_data_is_per_bin"], tiers=T),
+    S("h_iteration", it(2, N=2, d=1, C=2, fk=5, jk=5, pz=1), ["multi_channel.adjustment_data_is_per_channel"], tiers=T),
+    S("h_iteration", it(2, N=2, d=1, C=3, fk=2, jk=1, ask=1), ["multi_channel.call_protocol_order"], tiers=T),
+    S("h_iteration", it(2, N=1, d=1, C=4, fk=5, jk=1), ["multi_channel.call_protocol_order"], tiers=T),
+]
+ITERATION_JOBS = ITERATION_JOBS_Q + ITERATION_JOBS_T
+ITER_FUNCS = ["hep::plain_iteration", "hep::vegas_iteration", "hep::multi_channel_iteration",
+              "hep::accumulator<T,false>::invoke", "hep::accumulator<T,true>::invoke", "hep::accumulate",
+              "hep::mc_result<T>::value/variance/error", "hep::vegas_point<T>", "hep::multi_channel_point2<T,M>::weight",
+              "hep::discrete_distribution<size_t,T>", "hep::projector<T>::add"]
+ITER_BOUNDS = {"quick": "calls N<=2, dimensions d<=2, bins B<=3, channels C<=3; every integrand value one of {0, finite, NaN, +inf, -inf}; "
+                        "jacobian one of {finite>0, 0, NaN, +-inf}; all grids / weight vectors (every zero pattern) / random numbers symbolic",
+               "thorough": "calls N<=3, d<=2, B<=4, C<=4, same value kinds"}
+
+KERNEL_Q = [
+    S("h_mc_kernels", dict(ob=0, C=2), ["refine_weights.sum_to_one"]),
+    S("h_mc_kernels", dict(ob=0, C=3), ["refine_weights.sum_to_one", "refine_weights.documented_formula"]),
+    S("h_mc_kernels", dict(ob=1, C=2), ["select.never_a_disabled"]),
+    S("h_mc_kernels", dict(ob=1, C=3), ["select.never_a_disabled"]),
+    S("h_mc_kernels", dict(ob=1, C=4, closed=1), ["select.never_a_disabled"]),
+    S("h_mc_kernels", dict(ob=2, C=3), ["point.weight_is_jacobian"]),
+    S("h_mc_kernels", dict(ob=3, C=3, user=1), ["initial.normalised_user_weights"]),
+    S("h_mc_kernels", dict(ob=3, C=3, user=0), ["initial.uniform_default"]),
+]
+KERNEL_T = [
+    S("h_mc_kernels", dict(ob=0, C=4), ["refine_weights.sum_to_one"], tiers=T),
+    S("h_mc_kernels", dict(ob=1, C=5, closed=1), ["select.never_a_disabled"], tiers=T),
+    S("h_mc_kernels", dict(ob=2, C=4), ["point.weight_is_jacobian"], tiers=T),
+    S("h_mc_kernels", dict(ob=3, C=4, user=1), ["initial.normalised_user_weights"], tiers=T),
+]
+KERNEL_JOBS = KERNEL_Q + KERNEL_T
+VEGAS_PDF_JOBS = PLAN["C07"]["jobs"]
+
+
+def only(jobs, pred):
+    return [j for j in jobs if pred(j)]
+
+
+PLAN["C01"] = dict(
+    functions=["hep::vegas_icdf<T>", "hep::multi_channel_point2<T,M>::weight", "hep::discrete_distribution<size_t,T>"] + ITER_FUNCS,
+    bounds=ITER_BOUNDS, outside="larger sizes; rounding; the lattice-driven observable form (a concrete run)",
+    assumptions=COMMON_ASSUME + ["change of variables: x affine in u on every bin with slope B*(g[i+1]-g[i]) and weight equal to the "
+                                 "product of slopes implies sum_bins int f(x(u)) w du = int_0^1 f for every valid grid; selection "
+                                 "probability alpha_i/sum alpha and weight J/sum_j alpha_j p_j imply E[f w] = int f J for normalised densities"],
+    jobs=only(VEGAS_PDF_JOBS, lambda j: j["cfg"]["ob"] == 0) + KERNEL_JOBS + ITERATION_JOBS,
+)
+PLAN["C02"] = dict(functions=ITER_FUNCS, bounds=ITER_BOUNDS, outside="larger sizes; rounding (compensated summation is exact in the model)",
+                   assumptions=COMMON_ASSUME, jobs=ITERATION_JOBS)
+PLAN["C08"] = dict(
+    functions=["hep::multi_channel_refine_weights<T>", "hep::multi_channel_chkpt<T>::multi_channel_chkpt", "hep::multi_channel_chkpt<T>::channels",
+               "hep::multi_channel_chkpt<T>::channel_weights"],
+    bounds={"quick": "channels C<=3, every zero pattern of weights and data, weights in (0,1e6], data in (0,1e30], beta in (0,1], min in [0,1/C)",
+            "thorough": "C<=4"},
+    outside="larger C; rounding", assumptions=COMMON_ASSUME,
+    jobs=only(KERNEL_JOBS, lambda j: j["cfg"]["ob"] in (0, 3)),
+)
+PLAN["C09"] = dict(
+    functions=["hep::discrete_distribution<size_t,T>::discrete_distribution", "hep::discrete_distribution<size_t,T>::operator()",
+               "hep::multi_channel_iteration (enabled_channels, channel handed to the map)"],
+    bounds={"quick": "channels C<=4, every zero pattern, weights symbolic (unnormalised), u in [0,1) and u in [0,1] symbolic", "thorough": "C<=5"},
+    outside="larger C; rounding of the cumulative sums (exact reals)", assumptions=COMMON_ASSUME,
+    jobs=only(KERNEL_JOBS, lambda j: j["cfg"]["ob"] == 1) + only(ITERATION_JOBS, lambda j: j["cfg"]["alg"] == 2),
+)
+
+PLAN["C06"] = dict(functions=ITER_FUNCS + ["hep::accumulator<T,true>::add_to_1d_distribution"], bounds=ITER_BOUNDS,
+                   outside="larger sizes; overflow of finite data to infinity (exact reals never overflow)",
+                   assumptions=COMMON_ASSUME + ["'identical to a run in which the same points returned zero' is checked as: every sum, "
+                                                "sum of squares, adjustment datum equals the reference computed over the finite evaluations only"],
+                   jobs=ITERATION_JOBS)
+PLAN["C10"] = dict(functions=ITER_FUNCS, bounds=ITER_BOUNDS, outside="raw draws per canonical number of the standard engines (Route I part)",
+                   assumptions=COMMON_ASSUME, jobs=ITERATION_JOBS + only(KERNEL_JOBS, lambda j: j["cfg"]["ob"] == 1))
+PLAN["C17"] = dict(functions=ITER_FUNCS + ["hep::vegas_icdf<T>"], bounds=ITER_BOUNDS, outside="larger sizes; rounding in the VEGAS coordinate",
+                   assumptions=COMMON_ASSUME,
+                   jobs=ITERATION_JOBS + only(VEGAS_PDF_JOBS, lambda j: j["cfg"]["ob"] == 0) + only(KERNEL_JOBS, lambda j: j["cfg"]["ob"] in (1, 2)))
